@@ -1,4 +1,6 @@
 #!/bin/bash
-# seed_all.sh [check args]: confirm every seeded change under seeded/ and run its property's check against it (scratch copies only).
+# seed_all.sh [round dir] [check args]: confirm every seeded change under seeded/ (or seeded/round2 ..) and run its property's
+# check against it (scratch copies only).
 cd "$(dirname "$0")"
-for d in seeded/C*/; do id=$(basename $d); ./seed_confirm.sh $id $d "$@"; done
+ROOT="${1:-seeded}"; shift || true
+for d in $ROOT/C*/; do id=$(basename $d); ./seed_confirm.sh $id $d "$@"; done
